@@ -18,7 +18,7 @@ InitB == \E p \in {"grpc", "grpcweb"}, k \in {"unary", "server", "client", "bidi
            InitWith(Mk(p, k, 200, ct, "none", hs, hd, "absent", "absent", "none", "empty", "canon"))
 \* 200 with a body and a terminator
 InitC == \E p \in {"connect", "grpc", "grpcweb"}, k \in {"unary", "server", "client", "bidi"}, b \in Bodies, ts \in StClasses, td \in {"absent", "valid", "code0"},
-            ce \in CErr, cs \in {"canon", "lower", "upper"}, enc \in {"none", "gzip", "unknown"}, ct \in {"match", "other"} :
+            ce \in CErr, cs \in {"canon", "lower", "upper", "both"}, enc \in {"none", "gzip", "unknown"}, ct \in {"match", "other"} :
            /\ (p = "connect" => ts = "absent" /\ td = "absent")
            /\ (p # "connect" => ce = "none")
            /\ (td # "absent" => ts = "5")
